@@ -3,9 +3,16 @@
   (lean/CometGen/Facts_Post.lean, written by harness/cmd/facts on every run).
 
   Each obligation says "the anchored site still reads the way the model
-  (Comet/Limiter.lean, Fusion.lean, Merge.lean, Agg.lean) transcribes it".  A failing
+  (Comet/Limiter.lean, Merge.lean, Agg.lean) transcribes it".  The facts are
+  independent of the names of local variables and parameters (`$1, $2, …` in order of
+  first occurrence within each expression; field names, constants, operators and the
+  order of the operands are kept), so renaming is not a broken tie.  A failing
   obligation is a broken tie: the check then runs the correspondence stream with a
   boosted budget to look for a concrete failing input.
+
+  `scoreMapToRanks` has no source-text obligation: how it sorts is an implementation
+  choice (exchange sort, sort.Slice, …); that its answer is a 0-based best-first
+  ranking is judged on the answers themselves (`checkRanksW`, `verifyRRFW`).
 -/
 import CometGen.Facts_Post
 namespace CometGen.Obligations.C19
@@ -14,49 +21,40 @@ open CometGen.Facts.Post
 /-- `Comet.autocut` / `autocutScan`: the guards, with the short-circuit `&&` in front
     of the second neighbour read and `i-2` for the last element. -/
 theorem autocut_guards : autocutConds =
-    ["len(yValues) <= 1", "i == 0", "i == len(diff)-1 && len(diff) > 1",
-     "diff[i] > diff[i-1] && diff[i] > diff[i-2]", "extremaCount >= cutOff",
-     "diff[i] > diff[i-1] && diff[i] > diff[i+1]", "extremaCount >= cutOff"] := by decide
+    ["len($1) <= 1", "$1 == 0", "$1 == len($2)-1 && len($2) > 1",
+     "$1[$2] > $1[$2-1] && $1[$2] > $1[$2-2]", "$1 >= $2",
+     "$1[$2] > $1[$2-1] && $1[$2] > $1[$2+1]", "$1 >= $2"] := by decide
 
 /-- the slice reads of `Autocut` are exactly the checked reads of the model
-    (`autocutDiff`: yValues[i], [0], [len-1], [0]; `autocutScan`: diff[i], [i-1], [i], [i-2] / [i+1]) -/
+    (`autocutDiff`: [i], [0], [len-1], [0]; `autocutScan`: [i], [i-1], [i], [i-2] / [i+1]) -/
 theorem autocut_indexes : autocutIndexes =
-    ["yValues[i]", "yValues[0]", "yValues[len(yValues)-1]", "yValues[0]", "diff[i]",
-     "diff[i]", "diff[i-1]", "diff[i]", "diff[i-2]",
-     "diff[i]", "diff[i-1]", "diff[i]", "diff[i+1]"] := by decide
+    ["$1[$2]", "$1[0]", "$1[len($1)-1]", "$1[0]", "$1[$2]",
+     "$1[$2]", "$1[$2-1]", "$1[$2]", "$1[$2-2]",
+     "$1[$2]", "$1[$2-1]", "$1[$2]", "$1[$2+1]"] := by decide
 
 /-- `Comet.autocutResults`: disabled by exactly −1, or an empty input -/
-theorem autocut_results_guard : autocutResultsConds = ["cutoff == -1 || len(results) == 0"] := by
+theorem autocut_results_guard : autocutResultsConds = ["$1 == -1 || len($2) == 0"] := by
   decide
 
 /-- `limitResults` / `sliceTo`: prefixes -/
-theorem limiter_slices : limiterSlices = ["results[:k]", "results[:cutIndex]"] := by decide
+theorem limiter_slices : limiterSlices = ["$1[:$2]", "$1[:$2]"] := by decide
 
 /-- `Comet.mergeStep`: strictly greater replaces -/
-theorem merge_guard : mergeConds =
-    ["len(results) == 0", "!exists || result.Score > existingScore"] := by decide
+theorem merge_guard : mergeConds = ["len($1) == 0", "!$1 || $2.Score > $3"] := by decide
 
 /-- `Comet.sortResultsByScore`: descending -/
 theorem merge_sort : mergeSortCalls =
-    ["sort.Slice(results, func(i, j int) bool { return results[i].Score > results[j].Score })"] := by
+    ["sort.Slice($1, func($2, $3 int) bool { return $1[$2].Score > $1[$3].Score })"] := by
   decide
-
-/-- `Comet.scoreMapToRanks`: 0-based position in the sorted slice -/
-theorem ranks_zero_based : rankAssigns = ["ranks[ds.docID] = i"] := by decide
-
-/-- `Comet.shouldSwap`: ascending swaps on `>`, descending on `<` -/
-theorem ranks_swap : rankSwapAssigns =
-    ["shouldSwap := false", "shouldSwap = sorted[i].score > sorted[j].score",
-     "shouldSwap = sorted[i].score < sorted[j].score"] := by decide
 
 /-- vector aggregations sort ascending, text aggregations descending -/
 theorem agg_sorts : aggSortCalls =
-    ["sort.Slice(aggregated, func(i, j int) bool { return aggregated[i].Score < aggregated[j].Score })",
-     "sort.Slice(aggregated, func(i, j int) bool { return aggregated[i].Score < aggregated[j].Score })",
-     "sort.Slice(aggregated, func(i, j int) bool { return aggregated[i].Score < aggregated[j].Score })",
-     "sort.Slice(aggregated, func(i, j int) bool { return aggregated[i].Score > aggregated[j].Score })",
-     "sort.Slice(aggregated, func(i, j int) bool { return aggregated[i].Score > aggregated[j].Score })",
-     "sort.Slice(aggregated, func(i, j int) bool { return aggregated[i].Score > aggregated[j].Score })"] := by
+    ["sort.Slice($1, func($2, $3 int) bool { return $1[$2].Score < $1[$3].Score })",
+     "sort.Slice($1, func($2, $3 int) bool { return $1[$2].Score < $1[$3].Score })",
+     "sort.Slice($1, func($2, $3 int) bool { return $1[$2].Score < $1[$3].Score })",
+     "sort.Slice($1, func($2, $3 int) bool { return $1[$2].Score > $1[$3].Score })",
+     "sort.Slice($1, func($2, $3 int) bool { return $1[$2].Score > $1[$3].Score })",
+     "sort.Slice($1, func($2, $3 int) bool { return $1[$2].Score > $1[$3].Score })"] := by
   decide
 
 end CometGen.Obligations.C19
